@@ -15,7 +15,7 @@ META = {
 
 
 def check(tier):
-    ndb, nq, var = (12, 12, 4) if tier == "quick" else (150, 20, 10)
+    ndb, nq, var = (18, 16, 3) if tier == "quick" else (150, 20, 10)
     gen_args = ["-mode", "c01", "-seed", str(lib.seed()), "-dbs", str(ndb), "-queries", str(nq), "-depth", "2", "-variants", str(var)]
     return sc.driver_check(PID, tier, gen_args,
                            "seeded random databases (3 tables, <=6 rows, random PK/secondary indexes) x join queries; each executed under default + %d random cost models + up to 10 hint sets; non-trivial = at least 2 distinct plan fingerprints were executed for the query" % var,
